@@ -71,6 +71,13 @@ def run(env):
                 add(ctx, "gpow", [q - 1], "boundary")
                 add(ctx, "einvp", [g], "boundary")
                 add(ctx, "xsubmod", [0, q - 1], "boundary")
+            # small and power-of-two exponents on every parameter set (fixed-base tables / windows are indexed by the low
+            # bits; all sets run in ONE process, so anything cached across calls must be keyed by the parameter set)
+            for x in (list(range(2, 40)) + [2 ** k + d for k in (6, 7, 8, 15, 16, 31, 32, 60) for d in (-1, 0, 1)] if pstr != "2048" else [3, 4, 5, 15, 16, 255, 256]):
+                if x < 2 * q:
+                    add(ctx, "gpow", [x], "small-exponent")
+                    if pstr != "2048" or x in (5, 16):
+                        add(ctx, "epow", [pow(g, 3, p), x], "small-exponent")
             for _ in range(n):
                 a = rnd_member(r, ctx); b = rnd_member(r, ctx)
                 x = r.randrange(q); y = r.randrange(q)
